@@ -306,6 +306,42 @@ Theorem C03_instance_roundtrip : forall cx insts lib cell i x l c cs C,
 Proof. exact inst_roundtrip. Qed.
 Print Assumptions C03_instance_roundtrip.
 
+(* NETS and ONE CELL (Proofs/EdifEmitNets.v). [rp x] = the ports the reader holds for instance x. *)
+From SV Require Import Fmt.EdifFileSpec Proofs.EdifNetsProofs Proofs.EdifEmitNets.
+(* one (portref ..), with (member p k) for array ports and (instanceref i): the same pin comes back *)
+Theorem C03_pin_roundtrip : forall libs c cx rp p x,
+  cx_ports cx = ce_ports c -> pin_good libs c rp p -> pin_sexp libs c p = EmOk x ->
+  exists args, x = SList (KW "portref" :: args) /\ parse_portref cx (einsts rp (ce_insts c)) args = Ok p.
+Proof. exact pin_roundtrip. Qed.
+Print Assumptions C03_pin_roundtrip.
+(* all nets of a cell through the reader's contents loop: exactly Fmt/EdifNets.read_nets of the
+   written nets (so C03_cell_nets_roundtrip applies) *)
+Theorem C03_nets_loop_is_read_nets : forall libs c cx rp nets cabs0 xs cabsF,
+  cx_ports cx = ce_ports c ->
+  emap (net_sexp libs c) nets = EmOk xs -> Forall (net_good libs c rp) nets ->
+  Proofs.EdifFileNets.sinv cabs0 -> read_nets cabs0 nets = Some cabsF ->
+  NoDup (Proofs.EdifFileNets.spins cabs0 ++ flat_map snd nets) ->
+  loop (contents_step cx) false (mkcst (einsts rp (ce_insts c)) cabs0) xs =
+  Ok (mkcst (einsts rp (ce_insts c)) cabsF).
+Proof. exact nets_loop. Qed.
+Print Assumptions C03_nets_loop_is_read_nets.
+(* ONE CELL: name, interface, instances, nets; read in a reader state (libraries [rlibs] read, cells
+   [rcells] of this library read so far) in which every instance reference resolves ([inst_good])
+   and every pin names a declared port below its width ([net_good]): parse_cell gives norm_cell c *)
+Theorem C03_emit_roundtrip_cell : forall rlibs libs lib rcells c x rp,
+  cell_sexp [] libs lib c = EmOk x ->
+  elem_w (ce_ident c) (ce_name c) = true ->
+  forallb port_w (ce_ports c) = true ->
+  uniq_ci (map po_ident (ce_ports c)) = true -> uniq_x (map po_name (ce_ports c)) = true ->
+  Forall (inst_good (mkctx rlibs lib rcells (ce_ident c) (K "netlist") (ce_ports c)) rp) (ce_insts c) ->
+  uniq_ci (map in_ident (ce_insts c)) = true -> uniq_x (map in_name (ce_insts c)) = true ->
+  wf_cell (ce_cabs c) -> Forall (net_good libs c rp) (emit_nets (ce_cabs c)) -> NoDup (pins_of (ce_cabs c)) ->
+  ident_taken (ce_ident c) (map ce_ident rcells) = false ->
+  name_taken (ce_name c) (map ce_name rcells) = false ->
+  exists args, x = SList (KW "Cell" :: args) /\ parse_cell rlibs lib rcells args = Ok (norm_cell c).
+Proof. exact cell_roundtrip. Qed.
+Print Assumptions C03_emit_roundtrip_cell.
+
 (* The general statement over the decidable class [writable] (Fmt/EdifEmit.v: what the reader
    checks on the written file, minus the open findings: "&_" buses, bit-like scalar names, names
    with * ?, non-ASCII text, line breaks in strings). NOT PROVED. Every run evaluates, on every
